@@ -1,4 +1,300 @@
-(* Trace.v -- stub; the model that belongs here is being written. *)
-From P7 Require Import Prelude.
+(* Trace.v -- model of what a crash can leave on disk while py7zr writes an archive (C14).
+
+   The file under construction is a byte string with a cursor; a write session is the
+   ordered list of seek/write operations that SevenZipFile issues on the archive file:
+
+     create  (py7zr.py _prepare_write, _write_flush/_write_header; archiveinfo.py
+              SignatureHeader._write_skeleton / .write):
+        seek 0, the placeholder signature header in SEVEN writes
+              (magic, version major, version minor, crc=1, ofs=2, size=3, crc=4),
+        seek 32, the writes that precede the next header (packed data; for an encoded
+              header also the packed header), the writes of the next header itself
+              (Header.write issues one write per field),
+        seek 0, the signature header again in SEVEN writes (magic, 2 version bytes,
+              start-header CRC, next-header offset, next-header size, next-header CRC).
+     append  (_prepare_append): seek to afterheader + packpositions[-1], i.e. to the end
+              of the packed streams = ON the old (packed) header, then as above, the
+              version bytes being those read from the old file.
+
+   A crash point is (k, j): the first k operations took effect completely and the first j
+   bytes of operation k+1 did.  [image_at old trace k j] is the file then.
+
+   The reader side is SignatureHeader._read + SevenZipFile._real_get_contents: magic,
+   CRC of bytes 12..31 against the field at 8..11, then the CRC of the bytes at
+   (32+ofs, size) against the field at 28..31.  [open_view img] is the next header that
+   the reader goes on to parse (None = the reader raises).  For an encoded header (first
+   byte 0x17) Header._read decodes the packed header and checks its CRC only when the
+   descriptor defines one; py7zr's own UnpackInfo.write never writes one
+   ("FIXME: write CRCs here"), which is what [plain_header] mirrors.
+
+   Definitions only (computable, extracted); the proofs are in TraceProofs.v. *)
+From P7 Require Import Prelude PyPrims Crc32 Header.
 Open Scope Z_scope.
-Definition trace_dispatch (fn : Z) (a : tree) : tree := TL [TI (-2)].
+
+(* ------------------------------------------------------------------ *)
+(* File images and operations                                          *)
+(* ------------------------------------------------------------------ *)
+Inductive op := Seek (pos : nat) | Write (data : bytes).
+
+Definition zeros (n : nat) : bytes := repeatZ 0 n.
+
+(* write [d] at offset [pos]: a gap between the end of the file and [pos] is zero-filled
+   (POSIX, io.BytesIO); a zero-length write changes nothing, not even the length *)
+Definition write_at (img : bytes) (pos : nat) (d : bytes) : bytes :=
+  match d with
+  | [] => img
+  | _ => firstn pos img ++ zeros (pos - length img) ++ d ++ skipn (pos + length d) img
+  end.
+
+Definition fstate := (bytes * nat)%type.      (* image, cursor *)
+
+Definition apply_op (st : fstate) (o : op) : fstate :=
+  match o with
+  | Seek p => (fst st, p)
+  | Write d => (write_at (fst st) (snd st) d, (snd st + length d)%nat)
+  end.
+
+Definition run (tr : list op) (st : fstate) : fstate := fold_left apply_op tr st.
+
+(* the first k operations completely, then the first j bytes of the next one *)
+Definition image_from (st : fstate) (tr : list op) (k j : nat) : bytes :=
+  let st' := run (firstn k tr) st in
+  match nth_error tr k with
+  | Some (Write d) => write_at (fst st') (snd st') (firstn j d)
+  | _ => fst st'
+  end.
+
+Definition image_at (old : bytes) (tr : list op) (k j : nat) : bytes := image_from (old, O) tr k j.
+
+Definition final_image (old : bytes) (tr : list op) : bytes := fst (run tr (old, O)).
+
+(* crash with one earlier write lost: operation number d (a write that had been issued
+   before the crash point) never reached the disk; the cursor moved all the same *)
+Definition drop_op (o : op) : op :=
+  match o with Seek p => Seek p | Write d => Write [] end.
+Definition apply_op_lost (st : fstate) (o : op) : fstate :=
+  match o with
+  | Seek p => (fst st, p)
+  | Write d => (fst st, (snd st + length d)%nat)
+  end.
+Fixpoint run_lost (tr : list op) (d : nat) (st : fstate) : fstate :=
+  match tr with
+  | [] => st
+  | o :: r => match d with
+              | O => run r (apply_op_lost st o)
+              | S d' => run_lost r d' (apply_op st o)
+              end
+  end.
+Definition image_lost (old : bytes) (tr : list op) (d k j : nat) : bytes :=
+  (* d < k: operation d is lost; operations 0..k-1 otherwise complete; j bytes of operation k *)
+  let st' := run_lost (firstn k tr) d (old, O) in
+  match nth_error tr k with
+  | Some (Write x) => write_at (fst st') (snd st') (firstn j x)
+  | _ => fst st'
+  end.
+
+(* ------------------------------------------------------------------ *)
+(* The sessions                                                        *)
+(* ------------------------------------------------------------------ *)
+Definition sig_fields (crc ofs size hcrc : Z) : bytes :=
+  le_bytes 4 crc ++ le_bytes 8 ofs ++ le_bytes 8 size ++ le_bytes 4 hcrc.
+
+Definition start_fields (ofs size hcrc : Z) : bytes :=
+  le_bytes 8 ofs ++ le_bytes 8 size ++ le_bytes 4 hcrc.
+
+(* SignatureHeader.calccrc *)
+Definition start_crc (ofs size hcrc : Z) : Z := crc32 (start_fields ofs size hcrc).
+
+(* SignatureHeader.write / _write_skeleton: seek(0) and seven writes *)
+Definition sig_writes (magic : bytes) (v0 v1 crc ofs size hcrc : Z) : list op :=
+  [Seek 0; Write magic; Write [v0]; Write [v1]; Write (le_bytes 4 crc);
+   Write (le_bytes 8 ofs); Write (le_bytes 8 size); Write (le_bytes 4 hcrc)].
+
+Definition skeleton_writes : list op := sig_writes MAGIC 0 4 1 2 3 4.
+
+(* the 32 bytes of the placeholder *)
+Definition skeleton32 : bytes := MAGIC ++ [0; 4] ++ sig_fields 1 2 3 4.
+
+Definition zlenb (b : bytes) : Z := Z.of_nat (length b).
+
+(* [pre]: the chunks written before the next header starts; [hdr]: the chunks of the next header *)
+Definition create_trace (pre hdr : list bytes) : list op :=
+  let ofs := zlenb (concat pre) in
+  let size := zlenb (concat hdr) in
+  let hc := crc32 (concat hdr) in
+  skeleton_writes ++ [Seek 32] ++ map Write pre ++ map Write hdr ++
+  sig_writes MAGIC 0 4 (start_crc ofs size hc) ofs size hc.
+
+(* [p]: afterheader + packpositions[-1]; the version bytes are the ones read from the old file *)
+Definition append_trace (old : bytes) (p : nat) (pre hdr : list bytes) : list op :=
+  let ofs := Z.of_nat p - 32 + zlenb (concat pre) in
+  let size := zlenb (concat hdr) in
+  let hc := crc32 (concat hdr) in
+  [Seek p] ++ map Write pre ++ map Write hdr ++
+  sig_writes MAGIC (nth 6 old 0) (nth 7 old 0) (start_crc ofs size hc) ofs size hc.
+
+(* ------------------------------------------------------------------ *)
+(* The reader                                                          *)
+(* ------------------------------------------------------------------ *)
+Definition bytes_eqb (a b : bytes) : bool := if list_eq_dec Z.eq_dec a b then true else false.
+
+(* file.seek(a); file.read(n): what is there, possibly fewer than n bytes *)
+Definition slice (img : bytes) (a n : Z) : bytes := takeZ n (dropZ a img).
+
+(* _check_7zfile + SignatureHeader._read: struct.error on a short file, Bad7zFile on a
+   CRC mismatch; the version bytes are not looked at *)
+Definition sig_ok (img : bytes) : bool :=
+  (32 <=? zlenb img) && bytes_eqb (firstn 6 img) MAGIC &&
+  (crc32 (slice img 12 20) =? le_value (slice img 8 4)).
+
+Definition sig_ofs (img : bytes) : Z := le_value (slice img 12 8).
+Definition sig_size (img : bytes) : Z := le_value (slice img 20 8).
+Definition sig_hcrc (img : bytes) : Z := le_value (slice img 28 4).
+
+(* _real_get_contents up to the call of Header.retrieve: the bytes handed to the header
+   parser.  fp.seek(ofs, SEEK_CUR) / fp.read(size) of io.BytesIO raise OverflowError from
+   2^63 on. *)
+Definition open_view (img : bytes) : option bytes :=
+  if sig_ok img then
+    if (2 ^ 63 <=? 32 + sig_ofs img) || (2 ^ 63 <=? sig_size img) then None
+    else
+      let h := slice img (32 + sig_ofs img) (sig_size img) in
+      if crc32 h =? sig_hcrc img then Some h else None
+  else None.
+
+(* the descriptor of an encoded header (next header starting with 0x17), restricted to
+   the shape py7zr writes: one pack stream, one folder.
+   (packpos, packsize, unpacksize, digestdefined, crc) *)
+Definition enc_desc (lim : Z) (h : bytes) : option (folder * (Z * Z * Z)) :=
+  match h with
+  | 23 :: r =>
+      match parse_streams lim r with
+      | Ok (si, _) =>
+          match si_pack si, si_folders si with
+          | Some p, Some [f] =>
+              match p_sizes p, rev (f_unpacksizes f) with
+              | ps :: _, us :: _ => Some (f, (p_pos p, ps, us))
+              | _, _ => None
+              end
+          | _, _ => None
+          end
+      | Err _ => None
+      end
+  | _ => None
+  end.
+
+Section Encoded.
+  Variable lim : Z.
+  (* the decoder chain of the folder run over the packed bytes for the declared unpack
+     size; None = it raises *)
+  Variable dec : folder -> bytes -> Z -> option bytes.
+
+  (* Header._read: the plain header bytes that end up in _extract_header_info *)
+  Definition plain_header (img : bytes) : option bytes :=
+    match open_view img with
+    | None => None
+    | Some h =>
+        match enc_desc lim h with
+        | Some (f, (pp, ps, us)) =>
+            match dec f (slice img (32 + pp) ps) us with
+            | Some d =>
+                if f_digestdefined f then
+                  match f_crc f with
+                  | Some c => if crc32 d =? c then Some d else None
+                  | None => None
+                  end
+                else Some d          (* no CRC defined: nothing is checked *)
+            | None => None
+            end
+        | None =>
+            match h with
+            | 23 :: _ => None      (* an encoded header of another shape: outside this model *)
+            | _ => Some h          (* raw header (0x01 ...), or the empty archive *)
+            end
+        end
+    end.
+End Encoded.
+
+(* ------------------------------------------------------------------ *)
+(* Vocabulary of the theorems                                           *)
+(* ------------------------------------------------------------------ *)
+(* two DIFFERENT byte strings with the same CRC-32 *)
+Definition collides (a b : bytes) : Prop := a <> b /\ crc32 a = crc32 b.
+
+(* the first n bytes already those of [a] (new), the others still those of [b] (before) *)
+Definition mix (n : nat) (a b : bytes) : bytes := firstn n a ++ skipn n b.
+
+Definition skel20 : bytes := start_fields 2 3 4.
+Definition new20 (base : Z) (pre hdr : list bytes) : bytes :=
+  start_fields (base + zlenb (concat pre)) (zlenb (concat hdr)) (crc32 (concat hdr)).
+
+(* ------------------------------------------------------------------ *)
+(* Segment view of a session (used by the proofs; exported for the tie) *)
+(* ------------------------------------------------------------------ *)
+(* a session is a list of segments (position, chunks written consecutively from there) *)
+Definition seg_trace (s : nat * list bytes) : list op := Seek (fst s) :: map Write (snd s).
+Definition segs_trace (ss : list (nat * list bytes)) : list op := flat_map seg_trace ss.
+
+Definition new_sig24 (pre hdr : list bytes) (base : Z) : bytes :=
+  let ofs := base + zlenb (concat pre) in
+  let size := zlenb (concat hdr) in
+  let hc := crc32 (concat hdr) in
+  sig_fields (start_crc ofs size hc) ofs size hc.
+
+Definition create_segs (pre hdr : list bytes) : list (nat * list bytes) :=
+  let ofs := zlenb (concat pre) in
+  let size := zlenb (concat hdr) in
+  let hc := crc32 (concat hdr) in
+  [ (O, [MAGIC; [0]; [4]; le_bytes 4 1; le_bytes 8 2; le_bytes 8 3; le_bytes 4 4]);
+    (32%nat, pre ++ hdr);
+    (O, [MAGIC; [0]; [4]; le_bytes 4 (start_crc ofs size hc); le_bytes 8 ofs; le_bytes 8 size; le_bytes 4 hc]) ].
+
+Definition append_segs (old : bytes) (p : nat) (pre hdr : list bytes) : list (nat * list bytes) :=
+  let ofs := Z.of_nat p - 32 + zlenb (concat pre) in
+  let size := zlenb (concat hdr) in
+  let hc := crc32 (concat hdr) in
+  [ (p, pre ++ hdr);
+    (O, [MAGIC; [nth 6 old 0]; [nth 7 old 0]; le_bytes 4 (start_crc ofs size hc); le_bytes 8 ofs;
+         le_bytes 8 size; le_bytes 4 hc]) ].
+
+(* ------------------------------------------------------------------ *)
+(* Dispatcher (FN 280-299)                                             *)
+(* ------------------------------------------------------------------ *)
+Definition t_nat (n : nat) : tree := TI (Z.of_nat n).
+Definition of_nat_t (t : tree) : nat := Z.to_nat (of_TI t).
+Definition t_op (o : op) : tree :=
+  match o with Seek p => TL [TI 0; t_nat p] | Write d => TL [TI 1; t_bytes d] end.
+Definition of_op (t : tree) : op :=
+  if of_TI (tnth t 0) =? 0 then Seek (of_nat_t (tnth t 1)) else Write (of_bytes (tnth t 1)).
+Definition of_ops (t : tree) : list op := map of_op (of_TL t).
+Definition of_chunks (t : tree) : list bytes := map of_bytes (of_TL t).
+Definition t_optb (o : option bytes) : tree :=
+  match o with Some b => TL [t_bytes b] | None => TL [] end.
+
+Definition trace_dispatch (fn : Z) (a : tree) : tree :=
+  match fn with
+  (* FN 280 trace_create : (pre_chunks hdr_chunks) -> ops, op = (0 pos) | (1 bytes) *)
+  | 280 => TL (map t_op (create_trace (of_chunks (tnth a 0)) (of_chunks (tnth a 1))))
+  (* FN 281 trace_append : (old p pre_chunks hdr_chunks) -> ops *)
+  | 281 => TL (map t_op (append_trace (of_bytes (tnth a 0)) (of_nat_t (tnth a 1))
+                                      (of_chunks (tnth a 2)) (of_chunks (tnth a 3))))
+  (* FN 282 trace_image_at : (old ops k j) -> bytes *)
+  | 282 => t_bytes (image_at (of_bytes (tnth a 0)) (of_ops (tnth a 1)) (of_nat_t (tnth a 2)) (of_nat_t (tnth a 3)))
+  (* FN 283 trace_open_view : img -> () | (next header bytes) *)
+  | 283 => t_optb (open_view (of_bytes a))
+  (* FN 284 trace_sig_ok : img -> bool *)
+  | 284 => t_bool (sig_ok (of_bytes a))
+  (* FN 285 trace_final : (old ops) -> (img cursor) *)
+  | 285 => let st := run (of_ops (tnth a 1)) (of_bytes (tnth a 0), O) in TL [t_bytes (fst st); t_nat (snd st)]
+  (* FN 286 trace_enc_desc : (lim hdr) -> () | (packpos packsize unpacksize digestdefined) *)
+  | 286 => match enc_desc (of_TI (tnth a 0)) (of_bytes (tnth a 1)) with
+           | Some (f, (pp, ps, us)) => TL [TI pp; TI ps; TI us; t_bool (f_digestdefined f)]
+           | None => TL []
+           end
+  (* FN 287 trace_image_lost : (old ops d k j) -> bytes *)
+  | 287 => t_bytes (image_lost (of_bytes (tnth a 0)) (of_ops (tnth a 1)) (of_nat_t (tnth a 2))
+                               (of_nat_t (tnth a 3)) (of_nat_t (tnth a 4)))
+  (* FN 288 trace_start_crc : (ofs size hcrc) -> int *)
+  | 288 => TI (start_crc (of_TI (tnth a 0)) (of_TI (tnth a 1)) (of_TI (tnth a 2)))
+  | _ => TL [TI (-2)]
+  end.
